@@ -4,7 +4,7 @@ CONSTANTS
   Bug = "none"
   MinOv = 3
   MaxOv = 3
-  MinParams = 0
+  MinParams = 2
   MaxParams = 2
   ParamTypes = {"int", "str"}
   ArgTypes = {"int", "int|str"}
@@ -16,7 +16,7 @@ CONSTANTS
   MaxRet = 4
   DistinctRets = TRUE
   MaxUnionArgs = 1
-  EmitOneIn = 4
+  EmitOneIn = 2
 INVARIANT PropertyHolds
 INVARIANT MachineIsOperator
 INVARIANT BinderAgrees
